@@ -3,7 +3,10 @@
 
 package onet
 
-import "time"
+import (
+	"fmt"
+	"time"
+)
 
 // Read-only accessors and test knobs for the verification harness
 // (/verif/harness). Compiled only with the "verif" build tag.
@@ -46,6 +49,19 @@ func (o *Overlay) VerifRemovalPending(id TreeID) bool {
 	defer ts.Unlock()
 	_, ok := ts.cancellations[id]
 	return ok
+}
+
+// VerifRemovalChan identifies the scheduled removal of the tree ("" = none): two different
+// removals of one tree give different strings.
+func (o *Overlay) VerifRemovalChan(id TreeID) string {
+	ts := o.treeStorage
+	ts.Lock()
+	defer ts.Unlock()
+	c, ok := ts.cancellations[id]
+	if !ok {
+		return ""
+	}
+	return fmt.Sprintf("%p", c)
 }
 
 // VerifSetTreeTimeout shortens the grace period of the tree store.
